@@ -24,7 +24,7 @@ Not decided: histories; completeness of "exactly as if it had not been started" 
 from __future__ import annotations
 
 import ast
-from typing import Dict, List, Optional, Set, Tuple
+from typing import Any, Dict, List, Optional, Set, Tuple
 
 from engines import pyfacts as pf
 from engines import sqlfront as sf
@@ -88,6 +88,34 @@ def _sql_key(construct: str) -> str:
     return re.sub(r'^batch/sql/[^:]+\.sql::', 'sql::', construct)
 
 
+def _committed_var(r) -> Optional[str]:
+    """the variable commit_batch_update reads batch_updates.committed of (in_batch_id, in_update_id) into."""
+    for st in sf.all_statements(r.ast.body):
+        if st.kind == 'select' and st.into and st.frm is not None and [t.lower() for t in sf.table_names(st.frm)] == ['batch_updates'] and \
+                sr.has_eq(st.where, 'batch_id', 'in_batch_id') and sr.has_eq(st.where, 'update_id', 'in_update_id'):
+            for (c, _), v in zip(st.cols, st.into):
+                if c.kind == 'col' and c.parts[-1].lower() == 'committed' and sr.is_var(v):
+                    return v.parts[0].lower()
+    return None
+
+
+def _not_yet_committed(guard, var: str) -> Optional[bool]:
+    """does the path condition say the update was not committed before?  True / False (it says committed) / None (it does not say)."""
+    for c, p in guard:
+        t = c
+        pol = p
+        while t.kind == 'un' and t.op.upper() == 'NOT':
+            t, pol = t.arg, not pol
+        if sr.is_var(t) and t.parts[0].lower() == var:
+            return not pol
+        if t.kind == 'bin' and t.op in ('=', '<=>', '!=', '<>') and any(sr.is_var(x) and x.parts[0].lower() == var for x in (t.left, t.right)):
+            other = t.right if sr.is_var(t.left) and t.left.parts[0].lower() == var else t.left
+            if other.kind == 'lit' and other.value in (0, 1, True, False):
+                truth = bool(other.value) if t.op in ('=', '<=>') else not bool(other.value)    # the condition says: var == truth
+                return (not truth) if pol else truth
+    return None
+
+
 def r1(ctx: Ctx, prog: sf.SqlProgram) -> None:
     n = 0
     seen_roles: Dict[str, int] = {}
@@ -107,11 +135,15 @@ def r1(ctx: Ctx, prog: sf.SqlProgram) -> None:
             seen_roles[f'{name}::{role}'] = seen_roles.get(f'{name}::{role}', 0) + 1
             cons = f'sql::{name}::{role}' + (f' #{seen_roles[f"{name}::{role}"]}' if seen_roles[f'{name}::{role}'] > 1 else '')
             if name == 'commit_batch_update':
-                ok = ('cur_update_committed', False) in [(text(c), p) for c, p in guard]
-                ctx.check(ok, 'R1', cons, 'the commit-time promotion is not confined to the not-yet-committed branch', r.file, r.line_of(st))
+                cvar = _committed_var(r)
+                ctx.need(cvar is not None, 'commit_batch_update: the read of batch_updates.committed of the update being committed was not found')
+                ok = _not_yet_committed(guard, cvar)
+                ctx.check(bool(ok), 'R1', cons, 'the commit-time promotion is not confined to the not-yet-committed branch: it runs ' + ('in the already-committed branch' if ok is False else
+                          f'whatever `{cvar}` says (guards {[(text(c)[:40], p) for c, p in guard]})'), r.file, r.line_of(st))
                 # ... and to the jobs of THE update being committed: ids are reserved when an update is created and commits are not ordered, so
                 # any other id of the batch may belong to an update that is still open (or abandoned for good)
-                verdict, why = update_range_confinement(r.ast, st, guard)
+                from engines import c04facts as cf4
+                verdict, why = update_range_confinement(r.ast, st, guard, cf4.RoutineLocals(r.ast))
                 ctx.need(verdict != 'unknown', f'commit_batch_update: cannot decide whether the commit-time promotion is confined to the jobs of the update being committed: {why}')
                 ctx.check(verdict == 'ok', 'R1', cons + '::rows of the committed update only',
                           f'the commit-time promotion of update in_update_id also rewrites jobs of OTHER updates of the batch, which may be uncommitted: {why}. Those jobs are recounted, '
@@ -125,12 +157,92 @@ def r1(ctx: Ctx, prog: sf.SqlProgram) -> None:
     ctx.need(n >= 2, f'only {n} statements that can take a job out of Pending were found')
 
 
+def _var_sources(routine: N) -> Dict[str, List[Tuple[str, str, N]]]:
+    """routine variable -> [(table, column or '<expr>', SELECT .. INTO statement)] for every single-table SELECT .. INTO that assigns it."""
+    out: Dict[str, List[Tuple[str, str, N]]] = {}
+    for st in sf.all_statements(routine.body):
+        if st.kind == 'select' and st.into and st.frm is not None:
+            tabs = [t.lower() for t in sf.table_names(st.frm)]
+            for (c, _), v in zip(st.cols, st.into):
+                if sr.is_var(v):
+                    out.setdefault(v.parts[0].lower(), []).append((tabs[0] if len(tabs) == 1 else '+'.join(tabs), c.parts[-1].lower() if c.kind == 'col' else f'<{text(c)[:40]}>', st))
+        elif st.kind == 'set':
+            for t, _v in st.assigns:
+                if t.kind == 'col' and len(t.parts) == 1:
+                    out.setdefault(t.parts[0].lower(), []).append(('<set>', '<expr>', st))
+        elif st.kind == 'fetch':
+            for t in (st.into or []):
+                if t.kind == 'col':
+                    out.setdefault(t.parts[-1].lower(), []).append(('<cursor>', '<expr>', st))
+    return out
+
+
+def _literal_values(fn_mod: pf.Module, fn: pf.FuncDef, e: ast.AST, depth: int = 3) -> Optional[Set[Any]]:
+    """The literal values an expression may take: literals, conditional expressions, single-definition locals, and - for a parameter of a module-level function - the
+    arguments of every call of that function in the module (and its default).  None when some alternative is not a literal."""
+    if depth <= 0:
+        return None
+    if isinstance(e, ast.Constant):
+        return {e.value}
+    if isinstance(e, ast.IfExp):
+        a, b = _literal_values(fn_mod, fn, e.body, depth), _literal_values(fn_mod, fn, e.orelse, depth)
+        return None if a is None or b is None else a | b
+    if isinstance(e, ast.Name):
+        params = [a.arg for a in fn.args.posonlyargs + fn.args.args + fn.args.kwonlyargs]
+        if e.id in params:
+            if any(isinstance(n, ast.Name) and n.id == e.id and isinstance(n.ctx, (ast.Store, ast.Del)) for n in ast.walk(fn)):
+                return None
+            top = [f for f in fn_mod.tree.body if f is fn]
+            if not top:
+                return None
+            pos = [a.arg for a in fn.args.posonlyargs + fn.args.args]
+            defaults = dict(zip(pos[len(pos) - len(fn.args.defaults):], fn.args.defaults))
+            defaults.update({a.arg: d for a, d in zip(fn.args.kwonlyargs, fn.args.kw_defaults) if d is not None})
+            out: Set[Any] = set()
+            used_default = False
+            n_calls = 0
+            for caller in ast.walk(fn_mod.tree):
+                if not isinstance(caller, (ast.FunctionDef, ast.AsyncFunctionDef)):
+                    continue
+                for c in pf.walk_shallow(caller):
+                    if isinstance(c, ast.Call) and isinstance(c.func, ast.Name) and c.func.id == fn.name:
+                        n_calls += 1
+                        if any(isinstance(a, ast.Starred) for a in c.args) or any(k.arg is None for k in c.keywords):
+                            return None
+                        arg = None
+                        if e.id in pos and pos.index(e.id) < len(c.args):
+                            arg = c.args[pos.index(e.id)]
+                        for k in c.keywords:
+                            if k.arg == e.id:
+                                arg = k.value
+                        if arg is None:
+                            used_default = True
+                            continue
+                        vs = _literal_values(fn_mod, caller, arg, depth - 1)
+                        if vs is None:
+                            return None
+                        out |= vs
+            if used_default or n_calls == 0:
+                if e.id not in defaults:
+                    return None
+                vs = _literal_values(fn_mod, fn, defaults[e.id], depth - 1)
+                if vs is None:
+                    return None
+                out |= vs
+            return out
+        d = pf.single_def(fn, e.id)
+        if isinstance(d, ast.expr):
+            return _literal_values(fn_mod, fn, d, depth - 1)
+    return None
+
+
 def r2(ctx: Ctx, prog: sf.SqlProgram) -> None:
     allowed_running = {'commit_batch_update'}
     allowed_complete = {'mark_job_complete', 'mark_job_group_complete'}
     allowed_n_jobs = {'commit_batch_update'}
     seen = 0
     for name, r in sorted(prog.routines.items()):
+        srcs = None
         for st, guard in sf.guarded_statements(r.ast.body):
             if st.kind != 'update':
                 continue
@@ -151,31 +263,51 @@ def r2(ctx: Ctx, prog: sf.SqlProgram) -> None:
                     ctx.check(name in allowed_n_jobs, 'R2', cons, f'{name} changes {tname}.n_jobs; job counts may only grow when an update is committed', r.file, r.line_of(st))
                 elif col == 'state':
                     seen += 1
-                    vals = set()
-                    for x in v.walk():
-                        if x.kind == 'lit' and isinstance(x.value, str):
-                            vals.add(x.value)
+                    vals = set(lits)
                     if 'running' in vals:
                         ctx.check(name in allowed_running, 'R2', cons, f'{name} re-opens a {tname[:-1]} (state running) outside the commit of an update', r.file, r.line_of(st))
                     elif 'complete' in vals:
-                        gtxt = ' '.join(text(g) for g, p in guard if p)
-                        ok = name in allowed_complete and ('n_completed' in gtxt and ('total_jobs' in gtxt))
-                        ctx.check(ok, 'R2', cons, f'{tname}.state is set to complete without the guard "completed count == job count" in a completion procedure', r.file, r.line_of(st))
+                        if name not in allowed_complete:
+                            ctx.bad('R2', cons, f'{name} sets {tname}.state to complete: only the completion procedures {sorted(allowed_complete)} may, under "completed count = job count"', r.file, r.line_of(st))
+                            continue
+                        srcs = srcs if srcs is not None else _var_sources(r.ast)
+                        # the guard "completed count of this entity = its job count": an equality between a variable read from <..>.n_completed and one read from <tname>.n_jobs
+                        pos = [g for g, p in guard if p]
+                        found = None
+                        others = []
+                        for g in pos:
+                            if g.kind == 'bin' and g.op in ('=', '<=>') and sr.is_var(g.left) and sr.is_var(g.right):
+                                a_, b_ = (srcs.get(x.parts[0].lower(), []) for x in (g.left, g.right))
+                                if len(a_) == 1 and len(b_) == 1:
+                                    pair = {a_[0][:2], b_[0][:2]}
+                                    if ('job_groups_n_jobs_in_complete_states', 'n_completed') in pair:
+                                        found = (g, a_[0] if a_[0][1] == 'n_completed' else b_[0], b_[0] if a_[0][1] == 'n_completed' else a_[0])
+                                        continue
+                            others.append(g)
+                        if found is None:
+                            # evidence only when every positive guard is a plain comparison (of variables / literals): then none of them is the count test
+                            plain = all(g.kind == 'bin' and g.op in ('=', '<=>', '<', '<=', '>', '>=', '!=', '<>') and all(x.kind == 'lit' or sr.is_var(x) for x in (g.left, g.right)) for g in pos)
+                            ctx.need(plain, f'{name}: guards {[text(g)[:40] for g in pos]} of `UPDATE {tname} SET state = complete` not recognised')
+                            ctx.bad('R2', cons, f'{tname}.state is set to complete under {[text(g)[:50] for g in pos] or "no condition"}: none of these is "completed count (job_groups_n_jobs_in_complete_states.n_completed) = job count"',
+                                    r.file, r.line_of(st))
+                            continue
+                        g, comp, tot = found
+                        # like with like: the completed count of THIS entity against ITS n_jobs
+                        if tname == 'batches':
+                            like = tot[:2] == ('batches', 'n_jobs') and sr.has_eq(tot[2].where, 'id', 'in_batch_id') and sr.has_eq(comp[2].where, 'id', 'in_batch_id') and sr.has_eq(comp[2].where, 'job_group_id', '0')
+                            why = f'{text(g)} compares n_completed read by `{text(comp[2])[:90]}` with `{tot[0]}.{tot[1]}` read by `{text(tot[2])[:90]}`'
+                        else:
+                            keys = [text(x).lower() for c2 in sf.conjuncts(comp[2].where) if c2.kind == 'bin' and c2.op == '=' for x in (c2.left, c2.right)]
+                            like = tot[:2] == ('job_groups', 'n_jobs') and sr.has_eq(tot[2].where, 'batch_id', 'in_batch_id') and sr.has_eq(comp[2].where, 'id', 'in_batch_id') and \
+                                any(sr.has_eq(tot[2].where, 'job_group_id', k) and sr.has_eq(comp[2].where, 'job_group_id', k) for k in keys)
+                            why = f'{text(g)} compares n_completed read by `{text(comp[2])[:90]}` with `{tot[0]}.{tot[1]}` read by `{text(tot[2])[:90]}`'
+                        ctx.check(like, 'R2', cons, f'{tname}.state is set to complete when {why}: that is not the completed count of this {tname[:-1]} against its own n_jobs (which only grows when an update is committed)',
+                                  r.file, r.line_of(st))
+                        if tname == 'batches':
+                            ctx.check(like, 'R2', f'sql::{name}::batch completion test', f'the batch is marked complete by comparing something other than the root group\'s n_completed with batches.n_jobs of the same batch: {why}', r.file, r.line_of(st))
                     else:
                         raise AnalysisError(f'{name}: {tname}.state set to {text(v)} not understood')
     ctx.need(seen >= 6, f'only {seen} writes of n_jobs/state on batches/job_groups found')
-    # the guards compare like with like: n_completed of the same entity vs its n_jobs
-    r = prog.routine('mark_job_complete')
-    bound: Dict[str, Tuple[str, str, N]] = {}
-    for st in sf.all_statements(r.ast.body):
-        if st.kind == 'select' and st.into and st.frm is not None and len(sf.table_names(st.frm)) == 1:
-            for (c, _), v in zip(st.cols, st.into):
-                if c.kind == 'col' and sr.is_var(v):
-                    bound[v.parts[0].lower()] = (sf.table_names(st.frm)[0].lower(), c.parts[-1].lower(), st)
-    a, b = bound.get('cur_batch_n_completed'), bound.get('total_jobs_in_batch')
-    ok = a is not None and b is not None and a[:2] == ('job_groups_n_jobs_in_complete_states', 'n_completed') and b[:2] == ('batches', 'n_jobs') and \
-        sr.has_eq(a[2].where, 'id', 'in_batch_id') and sr.has_eq(a[2].where, 'job_group_id', '0') and sr.has_eq(b[2].where, 'id', 'in_batch_id')
-    ctx.check(ok, 'R2', 'sql::mark_job_complete::batch completion test', 'the batch is marked complete by comparing something other than the root group\'s n_completed with batches.n_jobs of the same batch', r.file, r.line)
     # creation rows: complete, n_jobs 0
     m = pf.load('batch/batch/front_end/front_end.py')
     for e in sf.embedded_in(m):
@@ -186,11 +318,42 @@ def r2(ctx: Ctx, prog: sf.SqlProgram) -> None:
                 elts = sr.args_tuple(e.fn, e.call.args[1] if len(e.call.args) > 1 else None)
                 ctx.need(elts is not None and st.cols is not None and len(elts) == len(st.cols), f'{m.rel}:{e.lineno}: cannot bind insert into {st.table}')
                 d = {c.lower(): x for c, x in zip(st.cols, elts)}
-                sv = pf.const_str(pf.resolve_expr(e.fn, d['state'])) if 'state' in d else None
-                nj = d.get('n_jobs')
-                ok = sv == 'complete' and isinstance(nj, ast.Constant) and nj.value == 0
-                ctx.check(ok, 'R2', f'{m.rel}::{e.qual}::INSERT INTO {st.table.lower()}', f'a new {st.table.lower()[:-1]} row starts with state={sv!r}, n_jobs={pf.nsrc(nj) if nj is not None else None}; '
+                cons = f'{m.rel}::{e.qual}::INSERT INTO {st.table.lower()}'
+                ctx.need('state' in d and 'n_jobs' in d, f'{cons}: columns state / n_jobs are not in the column list (column defaults are not analysed)')
+                # the function that holds the statement may be nested (transaction function): parameters are looked up in the enclosing module-level function too
+                holder = e.fn
+                par = m.parents()
+                top = holder
+                while top is not None and top not in m.tree.body:
+                    top = par.get(top)
+                vals_s = _literal_values(m, holder, d['state'])
+                if vals_s is None and top is not None and top is not holder:
+                    vals_s = _literal_values(m, top, d['state'])     # type: ignore[arg-type]
+                vals_n = _literal_values(m, holder, d['n_jobs'])
+                if vals_n is None and top is not None and top is not holder:
+                    vals_n = _literal_values(m, top, d['n_jobs'])    # type: ignore[arg-type]
+                ctx.need(vals_s is not None and vals_n is not None, f'{cons}: state `{pf.nsrc(d["state"])}` / n_jobs `{pf.nsrc(d["n_jobs"])}` are not literals (followed through locals, conditional expressions and call sites)')
+                ok = vals_s == {'complete'} and vals_n == {0}
+                ctx.check(ok, 'R2', cons, f'a new {st.table.lower()[:-1]} row may start with state in {sorted(map(repr, vals_s))}, n_jobs in {sorted(map(repr, vals_n))}; '
                           'it must start complete with 0 jobs so that nothing of it is schedulable before a commit', m.path, e.lineno)
+
+
+def _stmt_alternatives(m: pf.Module, e: sf.Embedded) -> Optional[List[N]]:
+    """statements the call may send (conditional expression between SQL texts, texts held in closure / module-level names); None = not resolvable."""
+    from engines import c08ids as ids
+    from engines.sqlast import parse_statements, SqlParseError
+    if e.sql_text is not None:
+        return None if e.parse_error else list(e.stmts())
+    texts = ids.sql_alternatives(m, e)
+    if texts is None:
+        return None
+    out: List[N] = []
+    for t in texts:
+        try:
+            out += parse_statements(t)
+        except SqlParseError:
+            return None
+    return out
 
 
 def r3(ctx: Ctx) -> None:
@@ -198,35 +361,52 @@ def r3(ctx: Ctx) -> None:
     n = 0
     for rel in ('batch/batch/driver/instance_collection/pool.py', 'batch/batch/driver/instance_collection/job_private.py', 'batch/batch/driver/canceller.py'):
         m = pf.load(rel)
+        by_call = {id(e.call): e for e in sf.embedded_in(m)}
+
+        def group_selection(x: ast.AST) -> bool:
+            e2 = by_call.get(id(x))
+            sts = _stmt_alternatives(m, e2) if e2 is not None else None
+            return bool(sts) and all(s_.kind == 'select' and s_.frm is not None and sf.table_names(s_.frm)[:1] == ['job_groups'] for s_ in sts)
         for e in sf.embedded_in(m):
-            if e.sql_text is None or e.parse_error:
+            sts = _stmt_alternatives(m, e)
+            if sts is None:
+                # an execute-style call whose text is not known could be a selection of jobs
+                if e.method.startswith(('select', 'execute_and_fetch')) and e.receiver.split('.')[-1] in ('db', 'tx'):
+                    raise AnalysisError(f'{rel}::{e.qual}: the SQL of the `{e.method}` call at line {e.lineno} is not a resolvable text; whether it selects jobs outside running job groups is not decided')
                 continue
-            for st in e.stmts():
+            for st in sts:
                 if st.kind != 'select' or st.frm is None:
                     continue
                 first = sf.table_names(st.frm)[:1]
                 if first == ['job_groups']:
-                    conj = [text(c).lower().replace('job_groups.', '') for c in sf.conjuncts(st.where)]
+                    tabs = [t for t in sf.from_tables(st.frm) if t.kind == 'table' and t.name.lower() == 'job_groups']
+                    quals = {'job_groups'} | {(t.alias or '').lower() for t in tabs}
+                    running = any(c.kind == 'bin' and c.op == '=' and any(a.kind == 'col' and a.parts[-1].lower() == 'state' and (len(a.parts) == 1 or a.parts[-2].lower() in quals) and
+                                                                          b.kind == 'lit' and b.value == 'running' for a, b in ((c.left, c.right), (c.right, c.left)))
+                                  for c in sf.conjuncts(st.where))
                     n += 1
-                    ctx.check("(state = 'running')" in conj, 'R3', f'{rel}::{e.qual}::job group selection', f'job groups are selected without state = \'running\' (conjuncts {conj}): '
+                    ctx.check(running, 'R3', f'{rel}::{e.qual}::job group selection', f'job groups are selected without state = \'running\' (conjuncts {[text(c)[:50] for c in sf.conjuncts(st.where)]}): '
                               'groups of a batch whose first update is not committed would be offered to the scheduler/canceller', m.path, e.lineno)
                 elif first == ['jobs']:
                     # a jobs query must be nested in a loop over a job-group selection of the same function
                     loops = sr.enclosing_loops(m, e.call)
-                    nested = False
-                    for lp in loops:
-                        for c in ast.walk(lp.iter):
-                            if isinstance(c, ast.Call) and c.args and pf.const_str(c.args[0]) and 'FROM job_groups' in pf.const_str(c.args[0]):
-                                nested = True
+                    nested = any(group_selection(c) for lp in loops for c in ast.walk(lp.iter) if isinstance(c, ast.Call))
                     n += 1
                     lits = sorted(f'{(a if a.kind == "col" else b).parts[-1].lower()}={(b if a.kind == "col" else a).value!r}' for c in sf.conjuncts(st.where) if c.kind == 'bin' and c.op == '='
                                   for a, b in [(c.left, c.right)] if {a.kind, b.kind} == {'col', 'lit'})
-                    ctx.check(nested, 'R3', f'{rel}::{e.qual}::jobs selection [{", ".join(lits)}]', 'jobs are selected outside a loop over running job groups', m.path, e.lineno)
+                    if not nested:
+                        # the selection may be driven by job groups through a helper / an argument: only a query that visibly ranges over a whole batch or user is evidence
+                        keyed = any(c.kind == 'bin' and c.op == '=' and any(a.kind == 'col' and a.parts[-1].lower() == 'job_group_id' for a in (c.left, c.right)) for c in sf.conjuncts(st.where))
+                        ctx.need(not keyed, f'{rel}::{e.qual}: the jobs selection [{", ".join(lits)}] is keyed by job_group_id but not nested in a loop over a job-group selection of the same function; '
+                                 'where the job group comes from is not followed')
+                    ctx.check(nested, 'R3', f'{rel}::{e.qual}::jobs selection [{", ".join(lits)}]', 'jobs are selected for scheduling / cancelling without going through a job group at all (no job_group_id key, '
+                              'no loop over running job groups)', m.path, e.lineno)
     ctx.need(n >= 13, f'only {n} driver selections found')
 
 
 def r4(ctx: Ctx, prog: sf.SqlProgram) -> None:
     from rules import c01
+    from engines import c08ids as ids
     sub = Ctx('C01', ctx.tier)
     for rid in ('R3', 'R4', 'R5', 'R6', 'R7'):
         sub.rule(rid, 'x', 0)
@@ -238,19 +418,59 @@ def r4(ctx: Ctx, prog: sf.SqlProgram) -> None:
             ctx.check(inst['holds'], 'R4', _sql_key(inst['construct']), str(inst['detail']))
     ctx.need(k == 2, 'cancel procedures: committed-only clauses not found')
     m = pf.load('batch/batch/batch.py')
+    ids.resolve_module_sql(m)
     fn = m.func('cancel_job_group_in_db.cancel')
-    embs = sorted([e for e in sf.embedded_in(m) if e.fn is fn], key=lambda e: e.lineno)
-    ctx.need(len(embs) == 2 and embs[1].stmts()[0].kind == 'call', 'cancel_job_group_in_db: shape not recognised')
-    sel = embs[0].stmts()[0]
-    conj = [text(c).lower() for c in sf.conjuncts(sel.where)]
-    on = [text(c).lower() for j in sel.frm.joins for c in sf.conjuncts(j.on)]
-    ok = any('batch_updates.committed' in c for c in conj) and '(job_groups.update_id = batch_updates.update_id)' in on and '(job_groups.batch_id = batch_updates.batch_id)' in on
+    cons = f'{m.rel}::cancel_job_group_in_db::group must be committed'
+    sel_e = call_e = None
+    for e in sorted([e for e in sf.embedded_in(m) if e.fn is fn], key=lambda e: e.lineno):
+        sts = _stmt_alternatives(m, e)
+        ctx.need(sts is not None and len(sts) == 1, f'{cons}: SQL of the `{e.method}` call at line {e.lineno} not resolved')
+        if sts[0].kind == 'call' and sts[0].name.lower() == 'cancel_job_group':
+            call_e = e
+        elif sts[0].kind == 'select' and 'job_groups' in [t.lower() for t in sf.table_names(sts[0].frm)]:
+            sel_e = (e, sts[0])
+    ctx.need(sel_e is not None and call_e is not None, f'{cons}: the look-up of the job group / the CALL cancel_job_group were not found')
+    sel = sel_e[0] and sel_e[1]
+    # the row exists only when the creating update is committed (or the group is the root group): committed is a conjunct (possibly inside `committed OR <root>`), and batch_updates is joined on the group's own update
+    def mentions_committed(c: N) -> bool:
+        return any(n.kind == 'col' and n.parts[-1].lower() == 'committed' for n in c.walk())
+    conj = sf.conjuncts(sel.where)
+    committed_conj = [c for c in conj if mentions_committed(c)]
+    ons = [c for j in sel.frm.joins for c in sf.conjuncts(j.on)] + conj
+
+    def joins(col: str) -> bool:
+        for c in ons:
+            if c.kind == 'bin' and c.op == '=' and c.left.kind == 'col' and c.right.kind == 'col' and c.left.parts[-1].lower() == col and c.right.parts[-1].lower() == col and len(c.left.parts) > 1 and len(c.right.parts) > 1:
+                return True
+        return False
+    has_bu = 'batch_updates' in [t.lower() for t in sf.table_names(sel.frm)]
+    ok_sql = bool(committed_conj) and has_bu and joins('update_id') and joins('batch_id')
+    # CALL only on the "row found" side of a test on the look-up's result
     g = pf.cfg(fn)
-    call_n = g.node_of(embs[1].call)
-    tests = g.find(lambda n: n.kind == 'test' and pf.nsrc(n.ast) == 'not record')
-    guarded = bool(tests) and bool(call_n) and g.path_avoiding(g.entry, lambda n: n is call_n[0], lambda n: False, edge_ok=lambda a, b, lab: not (a in tests and lab == 'F')) is None
-    ctx.check(ok and guarded, 'R4', f'{m.rel}::cancel_job_group_in_db::group must be committed', 'a job group created by an update that is not committed can be cancelled (the cancel procedure would then '
-              'write cancellation state for something that does not exist yet for the batch)', m.path, embs[0].lineno)
+    ln = g.node_of(sel_e[0].call)
+    ctx.need(len(ln) == 1 and isinstance(ln[0].ast, ast.Assign) and isinstance(ln[0].ast.targets[0], ast.Name), f'{cons}: the result of the look-up is not bound to a name')
+    var = ln[0].ast.targets[0].id
+    call_n = g.node_of(call_e.call)
+    ctx.need(len(call_n) == 1, f'{cons}: CFG node of the CALL not found')
+    accept = {}
+    for t in g.find(lambda n_: n_.kind == 'test'):
+        a = t.ast
+        neg = False
+        while isinstance(a, ast.UnaryOp) and isinstance(a.op, ast.Not):
+            neg, a = not neg, a.operand
+        found_when: Optional[bool] = None
+        if isinstance(a, ast.Name) and a.id == var:
+            found_when = True
+        elif isinstance(a, ast.Compare) and len(a.ops) == 1 and isinstance(a.left, ast.Name) and a.left.id == var and isinstance(a.comparators[0], ast.Constant) and a.comparators[0].value is None:
+            found_when = isinstance(a.ops[0], (ast.IsNot, ast.NotEq))
+        if found_when is not None:
+            accept[t.id] = 'T' if found_when != neg else 'F'
+    ctx.need(accept, f'{cons}: no test on the result `{var}` of the look-up was recognised')
+    guarded = g.path_avoiding(g.entry, lambda n_: n_ is call_n[0], lambda n_: False, edge_ok=lambda a, b, lab: not (a.id in accept and lab == accept[a.id])) is None
+    ctx.check(ok_sql and guarded, 'R4', cons, ('the look-up that decides whether a job group may be cancelled ' + ('has no conjunct on batch_updates.committed' if not committed_conj else
+              'does not join batch_updates on the group\'s own (batch_id, update_id)') if not ok_sql else 'CALL cancel_job_group is reachable without the look-up having found the row') +
+              ': a job group created by an update that is not committed can be cancelled (the cancel procedure would then write cancellation state for something that does not exist yet for the batch)',
+              m.path, sel_e[0].lineno)
 
 
 def r5(ctx: Ctx, prog: sf.SqlProgram) -> None:
@@ -265,7 +485,9 @@ def r5(ctx: Ctx, prog: sf.SqlProgram) -> None:
     ctx.check(not bad, 'R5', f'{m.rel}::front end never writes user_inst_coll_resources', f'the front end writes the scheduler counters at {[e.lineno for e in bad]}: staged jobs would count before commit', m.path, bad[0].lineno if bad else 0)
     r = prog.routine('commit_batch_update')
     hits = [(st, g) for st, g in sf.guarded_statements(r.ast.body) if st.kind == 'insert' and st.table.lower() == 'user_inst_coll_resources']
-    ok = len(hits) == 1 and ('cur_update_committed', False) in [(text(c), p) for c, p in hits[0][1]]
+    cvar = _committed_var(r)
+    ctx.need(cvar is not None and len(hits) >= 1, 'commit_batch_update: read of batch_updates.committed / INSERT INTO user_inst_coll_resources not found')
+    ok = len(hits) == 1 and _not_yet_committed(hits[0][1], cvar) is True
     ctx.check(ok, 'R5', 'sql::commit_batch_update::staged counts enter at commit', 'staged ready counts are not added exactly once in the not-yet-committed branch of commit_batch_update', r.file, r.line)
     # every read of the staging table inside commit_batch_update is restricted to (in_batch_id, in_update_id): staged rows of other (open) updates must not be counted
     k = 0
@@ -284,6 +506,10 @@ def r5(ctx: Ctx, prog: sf.SqlProgram) -> None:
         for c in conj:
             w = c if w is None else N('bin', op='AND', left=w, right=c)
         okk = sr.has_eq(w, 'update_id', 'in_update_id') and sr.has_eq(w, 'batch_id', 'in_batch_id')
+        if not okk:
+            # evidence only when the restriction is plainly absent: a conjunct that mentions in_update_id / in_batch_id in another form (IN, <=>, a sub-select) is not judged
+            other = [c for c in conj if any(n.kind == 'col' and n.parts[-1].lower() in ('in_update_id', 'in_batch_id') for n in c.walk()) and not (c.kind == 'bin' and c.op == '=')]
+            ctx.need(not other, f'commit_batch_update: the staging read is restricted by `{text(other[0])[:60] if other else ""}`: not recognised')
         role = 'INTO ' + ', '.join(text(v) for v in st.into) if st.into else ('GROUP BY ' + ', '.join((g.parts[-1].lower() if g.kind == 'col' else text(g)) for g in (getattr(st, 'group', None) or [])))[:60]
         ctx.check(okk, 'R5', f'sql::commit_batch_update::staging read {role}', f'`{text(st)[:160]}` reads job_groups_inst_coll_staging without `batch_id = in_batch_id AND update_id = in_update_id`: '
                   'the staged jobs of other updates of the batch - created but not committed - are added to n_jobs / the scheduler counters by this commit', r.file, r.line_of(st))
